@@ -54,10 +54,10 @@ CHECKS = {
                         "agreement is established on the generated inputs only"],
         "units": [
             plain("refvectors", "^TestH2CSweep$"),
-            rapid("h2c", "^TestH2C$", 3000, 480000),
-            rapid("keysetid", "^TestKeysetID$", 400, 40000),
-            rapid("nut13", "^TestNut13$", 1200, 240000),
-            rapid("p2pkkey", "^TestP2PKKey$", 200, 16000, qs=1, ts=4),
+            rapid("h2c", "^TestH2C$", 3000, 240000),
+            rapid("keysetid", "^TestKeysetID$", 400, 20000),
+            rapid("nut13", "^TestNut13$", 1200, 120000),
+            rapid("p2pkkey", "^TestP2PKKey$", 200, 8000, qs=1, ts=4),
             fuzz("fuzzh2c", "FuzzH2C", "300s"),
             fuzz("fuzz_nut13", "FuzzNut13", "150s"),
             fuzz("fuzz_keysetid", "FuzzKeysetID", "150s"),
@@ -83,9 +83,9 @@ CHECKS["C02"] = {
                     "unit backend: the Core Lightning node is an in-process imitation of its REST interface (invoice / listinvoices); the LND adapter needs a gRPC node and is not exercised"],
     "units": [
         plain("regress", "^TestRegress"),
-        rapid("ledger", "^TestLedger$", 480, 40000, qs=8, ts=16),
-        rapid("sched", "^TestSchedLedger$", 300, 24000, qs=6, ts=16),
-        rapid("backend", "^TestBackendAmounts$", 200, 20000, qs=4, ts=16),
+        rapid("ledger", "^TestLedger$", 480, 12000, qs=8, ts=16),
+        rapid("sched", "^TestSchedLedger$", 300, 7200, qs=6, ts=16),
+        rapid("backend", "^TestBackendAmounts$", 200, 10000, qs=4, ts=16),
         plain("schedenum", "^TestSchedLedgerEnum$", qs=16, ts=16, ttimeout=3300),
     ],
 }
@@ -106,8 +106,8 @@ CHECKS["C01"] = {
     "level_note": _WORLD_NOTE + "Interleavings are explored at storage/LN-call granularity (each MintDB method is one SQLite statement/transaction on a single connection).",
     "assumptions": ["interleaving granularity = one storage or Lightning call", "Lightning backend modelled by harness/lnmodel"],
     "units": [
-        rapid("seq", "^TestSeq$", 320, 20000, qs=6, ts=16),
-        rapid("sched", "^TestSched$", 480, 60000, qs=6, ts=16),
+        rapid("seq", "^TestSeq$", 320, 6000, qs=6, ts=16),
+        rapid("sched", "^TestSched$", 480, 18000, qs=6, ts=16),
         plain("schedenum", "^TestSchedEnum$", qs=16, ts=16, ttimeout=3300),
     ],
 }
@@ -124,8 +124,8 @@ CHECKS["C03"] = {
     "level_note": _WORLD_NOTE + "The settlement notification is delivered by the harness (Recv blocks until then) and the step completes when the watcher goroutine has exited.",
     "assumptions": ["Lightning backend modelled by harness/lnmodel", "interleaving granularity = one storage or Lightning call"],
     "units": [
-        rapid("seq", "^TestSeq$", 400, 24000, qs=6, ts=16),
-        rapid("sched", "^TestSched$", 400, 40000, qs=6, ts=16),
+        rapid("seq", "^TestSeq$", 400, 7200, qs=6, ts=16),
+        rapid("sched", "^TestSched$", 400, 12000, qs=6, ts=16),
         plain("schedenum", "^TestSchedEnum$", qs=16, ts=16, ttimeout=3300),
     ],
 }
@@ -141,7 +141,7 @@ CHECKS["C09"] = {
     "level_note": _WORLD_NOTE + "Reference derivation in harness/ref (pinned to BIP-32 TV1 and the NUT-02 vector). Mint seeds come from a fixed pool of 6 so that reference keys can be cached.",
     "assumptions": ["reference derivation harness/ref correct", "mint seed pre-seeded into the database before first start (pool of 6)"],
     "units": [
-        rapid("lifecycle", "^TestLifecycle$", 240, 24000, qs=8, ts=16),
+        rapid("lifecycle", "^TestLifecycle$", 240, 7200, qs=8, ts=16),
     ],
 }
 
@@ -158,8 +158,8 @@ CHECKS["C15"] = {
     "level_note": _WORLD_NOTE,
     "assumptions": ["Lightning backend modelled by harness/lnmodel", "empty query lists are C06's subject and are not generated here"],
     "units": [
-        rapid("truth", "^TestTruth$", 400, 40000, qs=8, ts=16),
-        rapid("fault", "^TestFaultStates$", 480, 32000, qs=4, ts=16),
+        rapid("truth", "^TestTruth$", 400, 12000, qs=8, ts=16),
+        rapid("fault", "^TestFaultStates$", 480, 9600, qs=4, ts=16),
     ],
 }
 
@@ -175,8 +175,8 @@ CHECKS["C16"] = {
     "level_note": _WORLD_NOTE + "Issued totals stay far below 2^62 (SQLite SUM is int64); amounts >= 2^63 are only requested, where refusal (by limit or by the Lightning backend, which cannot invoice them) is the expected answer.",
     "assumptions": ["Lightning backend refuses invoices above 2^40 sat like real backends", "totals < 2^62", "interleaving granularity of the schedule units = one storage or Lightning call"],
     "units": [
-        rapid("balances", "^TestBalances$", 400, 40000, qs=8, ts=16),
-        rapid("sched", "^TestSchedTotals$", 300, 24000, qs=6, ts=16),
+        rapid("balances", "^TestBalances$", 400, 12000, qs=8, ts=16),
+        rapid("sched", "^TestSchedTotals$", 300, 7200, qs=6, ts=16),
         plain("schedenum", "^TestSchedTotalsEnum$", qs=16, ts=16, ttimeout=3300),
     ],
 }
@@ -194,8 +194,8 @@ CHECKS["C04"] = {
     "level_note": _WORLD_NOTE + "Verdict computed with harness/ref only (BIP-32 re-derivation of m/0'/0'/idx'/i', math/big secp256k1, own hash_to_curve).",
     "assumptions": ["reference derivation harness/ref correct", "NUT-10 locked secrets are C12/C13's subject and are not generated here"],
     "units": [
-        rapid("genuine", "^TestGenuine$", 320, 64000, qs=8, ts=16),
-        rapid("http", "^TestGenuineHTTP$", 240, 32000, qs=4, ts=16),
+        rapid("genuine", "^TestGenuine$", 320, 32000, qs=8, ts=16),
+        rapid("http", "^TestGenuineHTTP$", 240, 16000, qs=4, ts=16),
     ],
 }
 
@@ -216,8 +216,8 @@ CHECKS["C06"] = {
     "assumptions": ["snapshot covers the objects known to the model plus those referenced by the probe", "interleaving granularity of the schedule units = one storage or Lightning call"],
     "units": [
         plain("regress", "^TestRegress"),
-        rapid("rejected", "^TestRejected$", 240, 40000, qs=8, ts=16),
-        rapid("sched", "^TestSchedRefused$", 300, 24000, qs=6, ts=16),
+        rapid("rejected", "^TestRejected$", 240, 12000, qs=8, ts=16),
+        rapid("sched", "^TestSchedRefused$", 300, 7200, qs=6, ts=16),
         plain("schedenum", "^TestSchedRefusedEnum$", qs=16, ts=16, ttimeout=3300),
     ],
 }
@@ -241,7 +241,7 @@ CHECKS["C05"] = {
         plain("via_cln", "^TestScriptsViaCLN$", qs=16, ts=16),
         plain("via_lnd", "^TestScriptsViaLND$", qs=16, ts=16),
         plain("via_http", "^TestScriptsViaHTTP$", qs=16, ts=16),
-        rapid("poll_during_pay", "^TestPollDuringPay$", 240, 24000, qs=4, ts=16),
+        rapid("poll_during_pay", "^TestPollDuringPay$", 240, 7200, qs=4, ts=16),
     ],
 }
 
@@ -278,8 +278,8 @@ CHECKS["C14"] = {
     "units": [
         plain("regress", "^TestRegress"),
         plain("short_exhaustive", "^TestDecode(Short|Prefixed)Exhaustive$"),
-        rapid("roundtrip", "^TestRoundTrip$", 4000, 1200000, qs=4, ts=16),
-        rapid("decode", "^TestDecodeTotal$", 4000, 1200000, qs=4, ts=16),
+        rapid("roundtrip", "^TestRoundTrip$", 4000, 600000, qs=4, ts=16),
+        rapid("decode", "^TestDecodeTotal$", 4000, 600000, qs=4, ts=16),
         fuzz("fuzz_seeded", "FuzzDecode", "300s"),
         dict(fuzz("fuzz_empty", "FuzzDecode", "300s"), env={"VERIF_FUZZ_CORPUS": "empty"}),
         fuzz("fuzz_roundtrip", "FuzzRoundTrip", "240s"),
@@ -300,12 +300,12 @@ CHECKS["C10"] = {
     "units": [
         plain("vectors", "^TestSpecVectors$"),
         plain("regress", "^TestRegress"),
-        rapid("bdhke", "^TestBDHKE$", 600, 120000, qs=4, ts=16),
-        rapid("dleq", "^TestDLEQ$", 320, 40000, qs=8, ts=16),
-        rapid("encoding", "^TestDLEQEncoding$", 1000, 200000, qs=2, ts=16),
-        rapid("mintsigs", "^TestMintSignatures$", 48, 6000, qs=8, ts=16),
-        rapid("http", "^TestMintSignaturesHTTP$", 64, 6000, qs=8, ts=16),
-        rapid("wallet", "^TestWalletDLEQ$", 64, 6000, qs=8, ts=16),
+        rapid("bdhke", "^TestBDHKE$", 600, 60000, qs=4, ts=16),
+        rapid("dleq", "^TestDLEQ$", 320, 20000, qs=8, ts=16),
+        rapid("encoding", "^TestDLEQEncoding$", 1000, 100000, qs=2, ts=16),
+        rapid("mintsigs", "^TestMintSignatures$", 48, 3000, qs=8, ts=16),
+        rapid("http", "^TestMintSignaturesHTTP$", 64, 3000, qs=8, ts=16),
+        rapid("wallet", "^TestWalletDLEQ$", 64, 3000, qs=8, ts=16),
         fuzz("fuzz_encoding", "FuzzDLEQEncoding", "150s"),
         fuzz("fuzz_bdhke", "FuzzBDHKE", "150s"),
     ],
@@ -327,9 +327,9 @@ CHECKS["C12"] = {
     "assumptions": ["locktime compared at +-1 day only", "lock secrets above 512 bytes are refused by the mint (C04) and carry no sufficiency claim"],
     "units": [
         plain("regress", "^TestRegress"),
-        rapid("direct", "^TestDirect$", 4000, 800000, qs=4, ts=16),
-        rapid("e2e", "^TestSwapMelt$", 600, 100000, qs=12, ts=16),
-        rapid("wallet", "^TestWalletP2PK$", 120, 16000, qs=4, ts=16),
+        rapid("direct", "^TestDirect$", 4000, 400000, qs=4, ts=16),
+        rapid("e2e", "^TestSwapMelt$", 600, 50000, qs=12, ts=16),
+        rapid("wallet", "^TestWalletP2PK$", 120, 8000, qs=4, ts=16),
         fuzz("fuzz_direct", "FuzzDirect", "300s"),
     ],
 }
@@ -348,10 +348,10 @@ CHECKS["C13"] = {
     "assumptions": ["locktime compared at +-1 day only", "an unparsable witness is read as carrying the empty preimage"],
     "units": [
         plain("regress", "^TestRegress"),
-        rapid("direct", "^TestDirect$", 3000, 600000, qs=4, ts=16),
-        rapid("helper_inputs", "^TestHelperInputs$", 600, 100000, qs=2, ts=8),
-        rapid("e2e", "^TestSwap$", 360, 60000, qs=10, ts=16),
-        rapid("wallet", "^TestWalletHTLC$", 120, 16000, qs=4, ts=16),
+        rapid("direct", "^TestDirect$", 3000, 300000, qs=4, ts=16),
+        rapid("helper_inputs", "^TestHelperInputs$", 600, 50000, qs=2, ts=8),
+        rapid("e2e", "^TestSwap$", 360, 30000, qs=10, ts=16),
+        rapid("wallet", "^TestWalletHTLC$", 120, 8000, qs=4, ts=16),
         fuzz("fuzz_direct", "FuzzDirect", "300s"),
     ],
 }
@@ -370,7 +370,7 @@ CHECKS["C17"] = {
     "level_note": _WALLET_NOTE + "Locked proofs handed out by SendToPubkey/HTLCLockedProofs are treated as tokens returned to the caller (the sender cannot reclaim them) and are not part of the expected pending balance.",
     "assumptions": ["honest mints; fault-free wallet storage and transport (wallet crashes are C19)", "expected pending set after cross-mint operations and partially failed reclaims is adopted from storage (loss / double counting is still caught by conservation and disjointness)"],
     "units": [
-        rapid("history", "^TestHistory$", 192, 10000, qs=16, ts=16, qtimeout=1500, ttimeout=5000),
+        rapid("history", "^TestHistory$", 192, 3000, qs=16, ts=16, qtimeout=1500, ttimeout=5000),
     ],
 }
 
@@ -385,7 +385,7 @@ CHECKS["C08"] = {
     "level_note": _WALLET_NOTE + "A re-encoding of r other than hex / raw / base64 would escape the byte search (the structural rules still catch dleq objects).",
     "assumptions": ["blinding factors known to the harness = those stored by the wallets or returned in tokens"],
     "units": [
-        rapid("history", "^TestHistory$", 160, 12000, qs=16, ts=16, qtimeout=1500, ttimeout=5000),
+        rapid("history", "^TestHistory$", 160, 3600, qs=16, ts=16, qtimeout=1500, ttimeout=5000),
     ],
 }
 
@@ -400,8 +400,8 @@ CHECKS["C19"] = {
     "level_note": _WALLET_NOTE + "Output derivation for the oracle uses the repository's nut13 code (fast) cross-checked against harness/ref for the first counters of every keyset; C11 establishes their equality in general.",
     "assumptions": ["restore scans are compared up to stored counter + 400"],
     "units": [
-        rapid("history", "^TestHistory$", 96, 3000, qs=12, ts=16, qtimeout=1500, ttimeout=5000),
-        rapid("deep", "^TestDeep$", 12, 640, qs=12, ts=16, qtimeout=1500, ttimeout=5000),
+        rapid("history", "^TestHistory$", 96, 900, qs=12, ts=16, qtimeout=1500, ttimeout=5000),
+        rapid("deep", "^TestDeep$", 12, 200, qs=12, ts=16, qtimeout=1500, ttimeout=5000),
         {"name": "crash", "kind": "rapid", "run": "^TestCrash$", "quick": {"checks": 8, "shards": 8, "timeout": 1500}, "thorough": {"checks": 16, "shards": 16, "timeout": 3000}},
     ],
 }
@@ -418,7 +418,7 @@ CHECKS["C18"] = {
     "level_note": _WALLET_NOTE + "Fee formula from harness/ref (NUT-02).",
     "assumptions": ["one mint per case; contents up to 36 proofs"],
     "units": [
-        rapid("send", "^TestSend$", 640, 100000, qs=8, ts=16, ttimeout=5000),
+        rapid("send", "^TestSend$", 640, 30000, qs=8, ts=16, ttimeout=5000),
     ],
 }
 
@@ -435,7 +435,7 @@ CHECKS["C20"] = {
     "level_note": _WORLD_NOTE + "Websocket endpoint (/v1/ws) and cache expiry (TTL) are not exercised. Calls of the mint's background watcher goroutines are not attributed to a request.",
     "assumptions": ["handler served in-process via httptest (no sockets)", "cache TTL not exercised"],
     "units": [
-        rapid("surface", "^TestSurface$", 320, 40000, qs=8, ts=16),
+        rapid("surface", "^TestSurface$", 320, 12000, qs=8, ts=16),
     ],
 }
 
